@@ -241,6 +241,24 @@ func checkC20(c *Ctx) (int, error) {
 		cases = append(cases, cs)
 		c.ev.nontrivial(fmt.Sprintf("%s|%s|%d|%d", cs.Tag, d.Class, d.Len, d.Period))
 	}
+	// reused Writers: a first stream of incompressible data that ends shortly behind a full token block
+	// (32767 literals), Reset, then periodic data judged by the bound like a fresh Writer's
+	for si, set := range accelSettings {
+		if set.Level == -2 {
+			continue
+		}
+		for k, extra := range []int{0, 1, 5000, 12000, 20000} {
+			if c.Tier != "thorough" && (k+si)%2 == 1 {
+				continue
+			}
+			n1, n2 := 32767+extra, pick(rng, []int{65536, 100000})
+			cs := &WCase{ID: fmt.Sprintf("C20-reused-%d-%d", si, k), Set: set, Tag: settingTag(set) + "|reused",
+				Data: DataSpec{Class: "period", Pre: "uniform", Seed: rng.Int63n(1 << 30), Len: n2, Period: 1 + rng.Intn(64)},
+				Ops:  []Op{{Op: "W", N: n1}, {Op: "C"}, {Op: "R"}, {Op: "W", N: n2}, {Op: "C"}}}
+			cases = append(cases, cs)
+			c.ev.nontrivial(fmt.Sprintf("%s|reused|%d|%d", cs.Tag, n1, cs.Data.Period))
+		}
+	}
 	for _, set := range accelSettings {
 		for _, cl := range []string{"uniform", "nearuniform", "fib", "tokendense", "sparse", "alpha3", "dom50", "dom25"} {
 			for _, n := range sizes {
